@@ -836,6 +836,12 @@ def register(R):
                 z3.Implies(visited, z3.Select(hv, d_) == z3.Select(ev_, s_)))
         out['nothing_else_added'] = z3.ForAll([kk_], z3.Implies(z3.And([kk_ != z3.StringVal(d) for d in dsts]), z3.And(
             z3.Select(hp, kk_) == z3.Select(h0p, kk_), z3.Select(hv, kk_) == z3.Select(h0v, kk_))))
+        # C15 / C18: the mapped conditions are written into a request of the task's own, never into the caller's copy_source
+        # (which is also what CopyObject / UploadPartCopy send as CopySource, and what a later copy of the same source reuses)
+        cur = l.st.env.get('head_object_request')
+        cs = l.st.env.get('call_args')
+        user_cs = l.st.obj(cs).fields.get('copy_source') if isinstance(cs, Ref) else None
+        out['head_request_is_not_the_callers_copy_source'] = B(not (isinstance(cur, Ref) and isinstance(user_cs, Ref) and cur.oid == user_cs.oid))
         return out
 
     def cp_submit_checks(c):
